@@ -149,6 +149,23 @@ func genC09(c *Ctx) {
 		crypto.SPOCKVerifyAgainstData(ek.PublicKey(), sig, nil, h)
 		return "", nil
 	})
+	// removal lists made only of identity keys (documented as valid inputs), of every provenance, lengths 1..3
+	{
+		idks := c.identityKeys()
+		base := bk.PublicKey()
+		for i, k1 := range idks {
+			lists := [][]crypto.PublicKey{{k1}, {k1, idks[(i+1)%len(idks)]}, {k1, k1, idks[(i+2)%len(idks)]}}
+			for li, l := range lists {
+				c.probe("RemoveBLSPublicKeys", fmt.Sprintf("identity-only-%d-%d", i, li), true, func() (string, error) {
+					r, err := crypto.RemoveBLSPublicKeys(base, l)
+					if err == nil && !r.Equals(base) {
+						return "removing identity keys changed the key", nil
+					}
+					return "", err
+				})
+			}
+		}
+	}
 	// aggregation and multi-verification with list shapes
 	pk := bk.PublicKey()
 	listShapes := map[string][]crypto.PublicKey{"nil": nil, "empty": {}, "one": {pk}, "nil-element": {pk, nil}, "mixed": {pk, ek.PublicKey()}, "many": {pk, pk, pk, pk, pk}}
